@@ -164,7 +164,8 @@ pub fn run(ctx: &mut Ctx) -> (&'static str, String, bool) {
     // token-level exhaustive: multi-character tokens (colour/codepage-reset ^8, escaped caret, colour, a
     // double-byte character, Latin-1 and other-codepage letters, codepage letters, a reserved character)
     {
-        const TOKENS: [&str; 12] = ["^8", "^", "^1", "あ", "美", "é", "ě", "ж", "L", "E", "|", "１"];
+        // "ю" "я" are FE FF in CP1251 and "ÿ" "þ" are FF FE in CP1252: byte-order-mark look-alikes at the start of a segment
+        const TOKENS: [&str; 16] = ["^8", "^", "^1", "あ", "美", "é", "ě", "ж", "L", "E", "|", "１", "ю", "я", "ÿ", "þ"];
         let maxtok = ctx.tier.pick(5usize, 6usize);
         let mut ntok = 0u64;
         for len in 1..=maxtok {
